@@ -134,16 +134,9 @@ int main() {
         }
         // rendered paths
         const std::string src = "{math:" + expr + "}";
-        // Digit::NumberToString writes one unit past its buffer for some reals in [0.005, 0.01)
-        // (roundStringNumber, Digit.hpp:1166; e.g. {math:1/128}; number formatting is C10's
-        // subject): reals below 0.1 in magnitude are not rendered here.
-        const bool  tiny = ok && (num.Type == QExpression::ExpressionType::RealNumber) &&
-                          (num.Value.Number.Real != 0.0) && (std::fabs(num.Value.Number.Real) < 0.1);
-        std::string math = tiny ? std::string("=") : render(src, v);
+        std::string math = render(src, v);
         std::string mtok;
-        if (tiny) {
-            mtok = "=";
-        } else if (math == src) {
+        if (math == src) {
             mtok = "E";
         } else if (ok && num.Type == QExpression::ExpressionType::RealNumber) {
             StringStream<char> ss;
